@@ -114,28 +114,31 @@ func copyNames(h map[string]Val) map[string]Val {
 
 // fnCtx is the verification context of one function under contract.
 type fnCtx struct {
-	e           *Engine
-	fn          *ssa.Function
-	key         string
-	pkg         string
-	spec        *FuncSpec
-	eff         *effSpec
-	loops       map[*ssa.BasicBlock]*loopInfo
-	paths       int
-	regionSort  map[string]string
-	tparams     map[string]bool
-	safeMode    bool // runtime panics are obligations, not exceptional exits
-	nquery      int
-	aborted     string
-	closures    map[string]*closureInfo
-	orphanLoops map[int]*LoopSpec             // loop clauses of the contract that name no loop of the function body
-	adoptedBy   map[*ssa.BasicBlock]*LoopSpec // ... and the loop of an in-place callee each of them was attached to
-	interf      bool                          // interference pass: only ipost / lockinv obligations are emitted
-	curFrame    *frame                        // call site whose callee effects are being applied (C19 write obligations)
-	curSite     string
-	freeCells   map[string]Val // captured variables (closure under verification): name -> cell address
-	top         *frame
-	exitHooks   []func(st *State, fr *frame, exceptional bool)
+	e               *Engine
+	fn              *ssa.Function
+	key             string
+	pkg             string
+	spec            *FuncSpec
+	eff             *effSpec
+	loops           map[*ssa.BasicBlock]*loopInfo
+	paths           int
+	regionSort      map[string]string
+	tparams         map[string]bool
+	safeMode        bool // runtime panics are obligations, not exceptional exits
+	nquery          int
+	aborted         string
+	closures        map[string]*closureInfo
+	orphanLoops     map[int]*LoopSpec             // loop clauses of the contract that name no loop of the function body
+	adoptedBy       map[*ssa.BasicBlock]*LoopSpec // ... and the loop of an in-place callee each of them was attached to
+	usedOrphanHints map[string]bool               // orphan hints that found their call in a helper executed in place
+	adoptedAt       map[string]*LoopSpec          // the same per (loop header, call site of the helper)
+	adoptedN        map[int]*ssa.BasicBlock       // orphan ordinal -> header it was attached to
+	interf          bool                          // interference pass: only ipost / lockinv obligations are emitted
+	curFrame        *frame                        // call site whose callee effects are being applied (C19 write obligations)
+	curSite         string
+	freeCells       map[string]Val // captured variables (closure under verification): name -> cell address
+	top             *frame
+	exitHooks       []func(st *State, fr *frame, exceptional bool)
 }
 
 type effClause struct {
